@@ -215,8 +215,16 @@ def check_actor_arms(rep, ctx):
                 if e.kind == "call" and re.search(rx, e.callee):
                     used.add(map_ordinal(r, e.rargs[0]))
         return used, paths
-    read_failed, _ = maps_used("GetAllFailedConnectionSummary", r"HashMap::(iter|values|into_iter)$|IntoIterator>::into_iter$")
-    read_plain, _ = maps_used("GetAllConnectionSummary", r"HashMap::(iter|values|into_iter)$|IntoIterator>::into_iter$")
+    READ = r"HashMap::(iter|values|into_iter|keys|drain|into_values|values_mut|iter_mut)$|IntoIterator>::into_iter$"
+    read_failed, pf = maps_used("GetAllFailedConnectionSummary", READ)
+    read_plain, pp = maps_used("GetAllConnectionSummary", READ)
+    # reading the summary leaves it as it is: "each denial adds one occurrence ... to the summary the agent publishes" holds across
+    # publications only if publishing does not consume what it reads
+    MUT = r"HashMap::(drain|clear|remove|remove_entry|retain|insert|entry|get_mut|values_mut|iter_mut|extract_if|shrink_to_fit)$|mem::(take|replace|swap)$"
+    for variant, paths_ in (("GetAllFailedConnectionSummary", pf), ("GetAllConnectionSummary", pp)):
+        mut = sorted({e.callee.split("::")[-1] for r in paths_ for e in r.events if e.kind == "call" and re.search(MUT, e.callee)})
+        rep.add(Query("actor arm %s: reading the summary does not change it (no drain / clear / remove / take on the map)" % variant, "holds" if not mut else "violated", "modifying calls: %s" % mut, 0, "mirsym",
+                      key="C11.actor.read-only:" + variant, reproduced=None))
     ok_pub = len(read_failed) == 1 and len(read_plain) == 1 and read_failed != read_plain and None not in read_failed | read_plain
     rep.add(Query("actor: the failed-authorization summary and the connection summary are two distinct maps, each read by its own getter", "holds" if ok_pub else "inconclusive",
                   "failed=%s plain=%s" % (read_failed, read_plain), 0, "mirsym", key="C11.actor.maps"))
